@@ -781,8 +781,13 @@ def check_divisibility(facts, rep):
     def vpaths(body, havoc):
         """return / back-edge paths of div as (end, return text, conditions), `cond.then(|| ..)` expanded into its two cases"""
         out = []
+
+        def nn(c, v):
+            while c.startswith('Not(') and c.endswith(')'):
+                c, v = c[4:-1], not v
+            return (c, v)
         for p in SymEx(body, havoc_loops=havoc, max_paths=2000).run():
-            conds = [(sk(e.term), e.value != 0) for e in p.branches() if 'Overflow' not in sk(e.term)]
+            conds = [nn(sk(e.term), e.value != 0) for e in p.branches() if 'Overflow' not in sk(e.term)]
             r = strip(p.ret) if p.ret is not None else None
             if p.end == 'return' and r is not None and r[0] == 'call' and r[1].split('::')[-1] == 'then' and len(r[2]) == 2 and strip(r[2][1])[0] == 'closure':
                 c0 = sk(r[2][0])
